@@ -2864,6 +2864,20 @@ def emit_fn_text(unit, rel, path, fn_id, text, line0, end_line, dlines, tmpl_whe
                 if sec[0] in ('before', 'after'):
                     sec[1] = (_rn(sec[1][0]), sec[1][1])
         unit.rule_log.append({'rule': 'AID', 'before': 'proof aids written for locals %s' % ', '.join(sorted(renames)), 'after': 'renamed to %s' % ', '.join(renames[k] for k in sorted(renames)), 'where': ctx})
+    # a local that the proof aids name but that the function no longer binds (the compiler's own suggestion, e.g. `queues` ->
+    # `self.queues` once `let mut queues = self.queues.borrow_mut()` is gone): the aids - never the clauses - are rewritten
+    for a_, b_ in sorted((getattr(unit, 'aid_renames', None) or {}).items()):
+        if re.search(r'(?:\blet\s+(?:mut\s+)?|[(,|]\s*(?:mut\s+)?)%s\b' % re.escape(a_), sig + body):
+            continue
+        hit_ = False
+        for sec in sections:
+            if sec[0] in ('loop', 'before', 'after', 'atstart', 'atend'):
+                new_ = [re.sub(r'(?<![\w.])%s\b' % re.escape(a_), b_, l) for l in sec[2]]
+                if new_ != sec[2]:
+                    sec[2] = new_
+                    hit_ = True
+        if hit_:
+            unit.rule_log.append({'rule': 'AID', 'before': 'proof aids written for the local `%s`' % a_, 'after': 'read `%s` (the function no longer binds it)' % b_, 'where': ctx})
     drop_aids_ = getattr(unit, 'drop_aids', None) or ()
     for sec in sections:
         kind = sec[0]
